@@ -13,6 +13,7 @@ import Bnum.Lemmas.Shift
 import Bnum.Lemmas.Cmp
 import Bnum.Lemmas.Mul
 import Bnum.Lemmas.Cast
+import Bnum.Lemmas.Pow
 import Bnum.Spec.NumTraits
 import Bnum.Model.NumTraits
 namespace Bnum
@@ -169,5 +170,822 @@ theorem shr_tz (hw : 1 ≤ w) (ha : WF w n a) (h0 : U w a ≠ 0) :
   rw [g2]
   exact ⟨h1, g1, h2, h3⟩
 end ops
+/-! ## §3 binary gcd -/
+
+theorem coprime_two_pow {b : Nat} (hb : b % 2 = 1) (k : Nat) : Nat.Coprime (2 ^ k) b := by
+  apply Nat.Coprime.pow_left
+  unfold Nat.Coprime
+  rw [Nat.gcd_rec, hb]; exact Nat.gcd_one_left 2
+
+/-- stripping a power of two next to an odd number does not change the gcd -/
+theorem gcd_strip {m b : Nat} (hb : b % 2 = 1) (k : Nat) : Nat.gcd (2 ^ k * m) b = Nat.gcd m b :=
+  Nat.Coprime.gcd_mul_left_cancel m (coprime_two_pow hb k)
+
+/-- gcd of two numbers split into their odd parts -/
+theorem gcd_split {a' b' : Nat} (ha : a' % 2 = 1) (hb : b' % 2 = 1) (i j : Nat) :
+    Nat.gcd (2 ^ i * a') (2 ^ j * b') = Nat.gcd a' b' * 2 ^ (min i j) := by
+  rcases Nat.le_total i j with h | h
+  · obtain ⟨d, rfl⟩ := Nat.exists_eq_add_of_le h
+    rw [Nat.min_eq_left h, Nat.pow_add, Nat.mul_assoc, Nat.gcd_mul_left, Nat.gcd_comm a',
+      gcd_strip ha, Nat.gcd_comm, Nat.mul_comm]
+  · obtain ⟨d, rfl⟩ := Nat.exists_eq_add_of_le h
+    rw [Nat.min_eq_right h, Nat.pow_add, Nat.mul_assoc, Nat.gcd_mul_left, gcd_strip hb,
+      Nat.mul_comm]
+
+section gcd
+variable {w n : Nat}
+
+theorem gcdLoop_spec (hw : 1 ≤ w) (dbg : Bool) (t : Nat) (ht : t < w * n) :
+    ∀ (f : Nat) (a b : List Nat), WF w n a → WF w n b → U w a % 2 = 1 → U w b % 2 = 1 →
+      U w a + U w b < f → Nat.gcd (U w a) (U w b) * 2 ^ t < M w n →
+      ∃ r, U.gcdLoop dbg w f a b t = .ok r ∧ WF w n r ∧
+        U w r = Nat.gcd (U w a) (U w b) * 2 ^ t
+  | 0, _, _, _, _, _, _, hf, _ => by omega
+  | f + 1, a, b, ha, hb, oa, ob, hf, hG => by
+    unfold U.gcdLoop
+    rw [opLt_eq ha hb]
+    -- name the ordered pair
+    obtain ⟨A, B, hp, hA, hB, oA, oB, hle, hsum, hg⟩ :
+        ∃ A B, (if decide (U w a < U w b) = true then (b, a) else (a, b)) = (A, B) ∧ WF w n A ∧
+          WF w n B ∧ U w A % 2 = 1 ∧ U w B % 2 = 1 ∧ U w B ≤ U w A ∧
+          U w A + U w B = U w a + U w b ∧ Nat.gcd (U w A) (U w B) = Nat.gcd (U w a) (U w b) := by
+      by_cases h : U w a < U w b
+      · exact ⟨b, a, by simp [h], hb, ha, ob, oa, by omega, by omega, Nat.gcd_comm _ _⟩
+      · exact ⟨a, b, by simp [h], ha, hb, oa, ob, by omega, rfl, rfl⟩
+    rw [hp]; dsimp only
+    obtain ⟨d, hd1, hd2, hd3⟩ := uSub_ok hA hB hle dbg
+    rw [hd1]; dsimp only
+    rw [isZero_eq (w := w) d]
+    by_cases hz : U w d = 0
+    · simp only [hz, decide_true, if_true]
+      obtain ⟨g1, g2⟩ := UI.uncheckedShlInternal_spec (by omega) hB ht
+      have e : U w A = U w B := by omega
+      have hgB : Nat.gcd (U w a) (U w b) = U w B := by rw [← hg, e, Nat.gcd_self]
+      refine ⟨_, rfl, g1, ?_⟩
+      rw [g2, hgB]; rw [hgB] at hG; exact Nat.mod_eq_of_lt hG
+    · simp only [hz, decide_false, Bool.false_eq_true, if_false]
+      obtain ⟨s1, s2, s3, s4⟩ := shr_tz hw hd2 hz
+      generalize UI.uncheckedShrInternal w d (UI.trailingZeros w d) = a' at *
+      generalize UI.trailingZeros w d = k at *
+      have hpos : 1 ≤ 2 ^ k := Nat.two_pow_pos k
+      have hle' : U w a' ≤ U w d := by
+        rw [s3]; exact Nat.le_mul_of_pos_left _ hpos
+      have hk : k ≠ 0 := by
+        rintro rfl
+        simp at s3; omega
+      have hlt : 2 * U w a' ≤ U w d := by
+        obtain ⟨k', rfl⟩ := Nat.exists_eq_succ_of_ne_zero hk
+        have hp' : 1 ≤ 2 ^ k' := Nat.two_pow_pos k'
+        rw [s3, Nat.pow_succ]
+        nlinarith [Nat.mul_le_mul_right (2 * U w a') hp']
+      have hg' : Nat.gcd (U w a') (U w B) = Nat.gcd (U w a) (U w b) := by
+        rw [← hg, ← Nat.gcd_sub_self_left hle, ← hd3, s3, gcd_strip oB]
+      obtain ⟨r, hr1, hr2, hr3⟩ := gcdLoop_spec hw dbg t ht f a' B s2 hB s4 oB (by omega)
+        (by rw [hg']; exact hG)
+      exact ⟨r, hr1, hr2, by rw [hr3, hg']⟩
+
+/-- `Integer::gcd` for `BUint`: the binary gcd terminates, never panics, and returns `Nat.gcd` -/
+theorem U.gcd_spec (hw : 1 ≤ w) {a b : List Nat} (ha : WF w n a) (hb : WF w n b) (dbg : Bool) :
+    ∃ r, U.gcd dbg w a b = .ok r ∧ WF w n r ∧ U w r = Nat.gcd (U w a) (U w b) := by
+  unfold U.gcd
+  rw [isZero_eq (w := w) a, isZero_eq (w := w) b]
+  by_cases ha0 : U w a = 0
+  · simp only [ha0, decide_true, if_true]
+    exact ⟨b, rfl, hb, by rw [Nat.gcd_zero_left]⟩
+  simp only [ha0, decide_false, Bool.false_eq_true, if_false]
+  by_cases hb0 : U w b = 0
+  · simp only [hb0, decide_true, if_true]
+    exact ⟨a, rfl, ha, by rw [Nat.gcd_zero_right]⟩
+  simp only [hb0, decide_false, Bool.false_eq_true, if_false]
+  obtain ⟨a1, a2, a3, a4⟩ := shr_tz hw ha ha0
+  obtain ⟨b1, b2, b3, b4⟩ := shr_tz hw hb hb0
+  generalize UI.uncheckedShrInternal w a (UI.trailingZeros w a) = a' at *
+  generalize UI.uncheckedShrInternal w b (UI.trailingZeros w b) = b' at *
+  generalize UI.trailingZeros w a = i at *
+  generalize UI.trailingZeros w b = j at *
+  have hmin : (if j > i then i else j) = min i j := by
+    by_cases h : j > i
+    · rw [if_pos h, Nat.min_eq_left (by omega)]
+    · rw [if_neg h, Nat.min_eq_right (by omega)]
+  rw [hmin, ha.1]
+  have hg : Nat.gcd (U w a) (U w b) = Nat.gcd (U w a') (U w b') * 2 ^ min i j := by
+    rw [a3, b3]; exact gcd_split a4 b4 i j
+  have hG : Nat.gcd (U w a') (U w b') * 2 ^ min i j < M w n := by
+    rw [← hg]
+    exact Nat.lt_of_le_of_lt (Nat.le_of_dvd (by omega) (Nat.gcd_dvd_left _ _)) (U_lt ha)
+  have := U_lt a2; have := U_lt b2
+  obtain ⟨r, h1, h2, h3⟩ := gcdLoop_spec hw dbg (min i j) (by omega) (2 * M w n) a' b' a2 b2 a4 b4
+    (by omega) hG
+  exact ⟨r, h1, h2, by rw [h3, hg]⟩
+
+end gcd
+
+/-! ## §4 signed floor division -/
+
+/-- floor remainder in terms of the truncating one (Leijen's sign test) -/
+theorem fmod_of_tmod (a b : Int) (hb : b ≠ 0) :
+    a.fmod b = if (0 < a.tmod b ∧ b < 0) ∨ (a.tmod b < 0 ∧ 0 < b) then a.tmod b + b else a.tmod b := by
+  have h1 := Int.fmod_def a b
+  have h2 := fdiv_of_tdiv a b hb
+  have h3 := Int.mul_tdiv_add_tmod a b
+  obtain ⟨-, -, -, -, f5, f6⟩ := tdiv_facts a b hb
+  rw [h1, h2]
+  have e : b * (a.tdiv b - 1) = b * a.tdiv b - b := by ring
+  split_ifs <;> omega
+
+/-- floor quotient in terms of the truncating pair, with the same sign test -/
+theorem fdiv_of_tdiv' (a b : Int) (hb : b ≠ 0) :
+    a.fdiv b = if (0 < a.tmod b ∧ b < 0) ∨ (a.tmod b < 0 ∧ 0 < b) then a.tdiv b - 1 else a.tdiv b := by
+  rw [fdiv_of_tdiv a b hb]
+  obtain ⟨-, -, -, -, f5, f6⟩ := tdiv_facts a b hb
+  split_ifs <;> omega
+
+theorem fmod_eq_zero_iff (a b : Int) (hb : b ≠ 0) : a.fmod b = 0 ↔ b ∣ a := by
+  have h := @Int.fmod_eq_emod a b
+  have h1 := Int.emod_nonneg a hb
+  have h2 := Int.emod_lt a hb
+  constructor
+  · intro h0
+    by_cases hd : b ∣ a
+    · exact hd
+    · rw [h0] at h
+      by_cases hc : 0 ≤ b
+      · simp only [hc, true_or, if_true] at h
+        exact Int.dvd_of_emod_eq_zero (by omega)
+      · simp only [hc, hd, or_self, if_false] at h
+        omega
+  · intro hd
+    rw [h, Int.emod_eq_zero_of_dvd hd]; simp [hd]
+
+section sdiv
+variable {w n : Nat} {a b : List Nat} (hw : 2 ≤ w) (hn : 1 ≤ n)
+  (ha : WF w n a) (hb : WF w n b) (hb0 : S w b ≠ 0)
+  (hov : ¬ (S w a = -((M w n / 2 : Nat) : Int) ∧ S w b = -1)) (dbg : Bool)
+include hw hn ha hb hb0 hov
+
+/-- `Integer::div_rem` for `BInt`: truncation -/
+theorem I.divRem_spec :
+    ∃ q r, I.divRem dbg w a b = .ok (q, r) ∧ WF w n q ∧ WF w n r ∧
+      S w q = (S w a).tdiv (S w b) ∧ S w r = (S w a).tmod (S w b) := by
+  have hw1 : 1 ≤ w := by omega
+  have hU : UDivSpec w n := UDivSpec_of_KnuthD (KDL.knuthD_correct hw1) hw1 hn
+  obtain ⟨q, r, h, wq, wr, sq, sr⟩ := II.i_divRemUnchecked_spec hw hn hU ha hb hb0 hov dbg
+  unfold I.divRem II.div II.rem
+  rw [ha.1]; dsimp only
+  rw [II.ovfGuard_false hw1 hn ha hb hov, II.isZero_false hb hb0]
+  simp only [Bool.false_eq_true, if_false]
+  rw [h]
+  exact ⟨q, r, rfl, wq, wr, sq, sr⟩
+
+omit ha hb0 hov in
+theorem floorAdjust_eq {r : List Nat} (hr : WF w n r) :
+    I.floorAdjust w r b = decide ((0 < S w r ∧ S w b < 0) ∨ (S w r < 0 ∧ 0 < S w b)) := by
+  have hw1 : 1 ≤ w := by omega
+  unfold I.floorAdjust
+  have e1 : II.isPositive w r = decide (0 < S w r) := bool_eq_decide (II.isPositive_iff hw1 hn hr)
+  have e2 : II.isPositive w b = decide (0 < S w b) := bool_eq_decide (II.isPositive_iff hw1 hn hb)
+  have e3 : Bnum.Prim.isNeg w (topDigit b) = decide (S w b < 0) := isNegative_eq_decide hw1 hn hb
+  have e4 : isNegative w r = decide (S w r < 0) := isNegative_eq_decide hw1 hn hr
+  rw [e1, e2, e3, e4]
+  by_cases p1 : 0 < S w r <;> by_cases p2 : S w b < 0 <;> by_cases p3 : S w r < 0 <;>
+    by_cases p4 : 0 < S w b <;> simp [p1, p2, p3, p4]
+
+/-- `Integer::div_floor` for `BInt`: rounds toward negative infinity -/
+theorem I.divFloor_spec :
+    ∃ q, I.divFloor dbg w a b = .ok q ∧ WF w n q ∧ S w q = (S w a).fdiv (S w b) := by
+  have hw1 : 1 ≤ w := by omega
+  obtain ⟨q, r, h, wq, wr, sq, sr⟩ := I.divRem_spec hw hn ha hb hb0 hov dbg
+  unfold I.divFloor
+  rw [h]; dsimp only [Outcome.bind]
+  rw [floorAdjust_eq hw hn hb wr, fdiv_of_tdiv' _ _ hb0, ← sq, ← sr, ha.1]
+  by_cases hc : (0 < S w r ∧ S w b < 0) ∨ (S w r < 0 ∧ 0 < S w b)
+  · simp only [hc, decide_true, if_true]
+    obtain ⟨ba1, -⟩ := II.S_natAbs_le hw1 hn ha
+    obtain ⟨-, -, f3, -, -, -⟩ := tdiv_facts (S w a) (S w b) hb0
+    rw [← sq, ← sr] at f3
+    have hme := M_even hw1 hn
+    have s1 := S_one (n := n) hw hn
+    obtain ⟨d, e1, e2, e3⟩ := iOpSub_ok hw hn wq (WF_one hw1 hn)
+      (by rw [s1]; unfold repS; omega) dbg
+    exact ⟨d, e1, e2, by rw [e3, s1]⟩
+  · simp only [hc, decide_false, Bool.false_eq_true, if_false]
+    exact ⟨q, rfl, wq, rfl⟩
+
+/-- `Integer::mod_floor` for `BInt`: the remainder takes the divisor's sign -/
+theorem I.modFloor_spec :
+    ∃ r, I.modFloor dbg w a b = .ok r ∧ WF w n r ∧ S w r = (S w a).fmod (S w b) := by
+  have hw1 : 1 ≤ w := by omega
+  obtain ⟨q, r, h, wq, wr, sq, sr⟩ := I.divRem_spec hw hn ha hb hb0 hov dbg
+  have hrem : II.rem dbg w a b = .ok r := by
+    unfold I.divRem at h
+    cases hq : II.div dbg w a b with
+    | panic => rw [hq] at h; cases h
+    | ok q' =>
+      cases hr : II.rem dbg w a b with
+      | panic => rw [hq, hr] at h; cases h
+      | ok r' => rw [hq, hr] at h; cases h; rfl
+  unfold I.modFloor
+  rw [hrem]; dsimp only [Outcome.bind]
+  rw [floorAdjust_eq hw hn hb wr, fmod_of_tmod _ _ hb0, ← sr]
+  by_cases hc : (0 < S w r ∧ S w b < 0) ∨ (S w r < 0 ∧ 0 < S w b)
+  · simp only [hc, decide_true, if_true]
+    have rb := S_repS hw1 hn hb
+    have rr := S_repS hw1 hn wr
+    obtain ⟨d, e1, e2, e3⟩ := iOpAdd_ok hw hn wr hb (by unfold repS at *; omega) dbg
+    exact ⟨d, e1, e2, e3⟩
+  · simp only [hc, decide_false, Bool.false_eq_true, if_false]
+    exact ⟨r, rfl, wr, rfl⟩
+
+/-- provided method `div_mod_floor` -/
+theorem I.divModFloor_spec :
+    ∃ q r, I.divModFloor dbg w a b = .ok (q, r) ∧ WF w n q ∧ WF w n r ∧
+      S w q = (S w a).fdiv (S w b) ∧ S w r = (S w a).fmod (S w b) := by
+  obtain ⟨q, h1, wq, sq⟩ := I.divFloor_spec hw hn ha hb hb0 hov dbg
+  obtain ⟨r, h2, wr, sr⟩ := I.modFloor_spec hw hn ha hb hb0 hov dbg
+  unfold I.divModFloor
+  rw [h1, h2]
+  exact ⟨q, r, rfl, wq, wr, sq, sr⟩
+
+/-- `Integer::is_multiple_of` for `BInt` -/
+theorem I.isMultipleOf_spec :
+    I.isMultipleOf dbg w a b = .ok (decide (S w b ∣ S w a)) := by
+  obtain ⟨r, h2, wr, sr⟩ := I.modFloor_spec hw hn ha hb hb0 hov dbg
+  unfold I.isMultipleOf
+  rw [h2]
+  simp only [Outcome.map]
+  congr 1
+  apply bool_eq_decide
+  rw [II.isZero_iff_S wr, sr]; exact fmod_eq_zero_iff _ _ hb0
+
+end sdiv
+
+/-! ## §3b unsigned Integer methods, lcm -/
+
+section udiv
+variable {w n : Nat} {a b : List Nat}
+
+/-- `BUint::div_rem_unchecked` delivers quotient and remainder (Knuth D is proved in Lemmas/KnuthD) -/
+theorem uDivRemUnchecked_ok (hw : 1 ≤ w) (hn : 1 ≤ n) (ha : WF w n a) (hb : WF w n b)
+    (hb0 : U w b ≠ 0) :
+    ∃ q r, UI.divRemUnchecked w a b = .ok (q, r) ∧ WF w n q ∧ WF w n r ∧
+      U w q = U w a / U w b ∧ U w r = U w a % U w b :=
+  UDivSpec_of_KnuthD (KDL.knuthD_correct hw) hw hn a b ha hb hb0
+
+theorem uDiv_ok (hw : 1 ≤ w) (hn : 1 ≤ n) (ha : WF w n a) (hb : WF w n b) (hb0 : U w b ≠ 0) :
+    ∃ q, UI.div w a b = .ok q ∧ WF w n q ∧ U w q = U w a / U w b := by
+  obtain ⟨q, r, h, wq, -, sq, -⟩ := uDivRemUnchecked_ok hw hn ha hb hb0
+  unfold UI.div UI.wrappingDiv UI.checkedDiv
+  rw [isZero_eq (w := w) b]
+  simp only [hb0, decide_false, Bool.false_eq_true, if_false]
+  rw [h]
+  exact ⟨q, rfl, wq, sq⟩
+
+theorem uRem_ok (hw : 1 ≤ w) (hn : 1 ≤ n) (ha : WF w n a) (hb : WF w n b) (hb0 : U w b ≠ 0) :
+    ∃ r, UI.rem w a b = .ok r ∧ WF w n r ∧ U w r = U w a % U w b := by
+  obtain ⟨q, r, h, -, wr, -, sr⟩ := uDivRemUnchecked_ok hw hn ha hb hb0
+  unfold UI.rem UI.wrappingRem UI.checkedRem
+  rw [isZero_eq (w := w) b]
+  simp only [hb0, decide_false, Bool.false_eq_true, if_false]
+  rw [h]
+  exact ⟨r, rfl, wr, sr⟩
+
+theorem uDiv_zero (hb0 : U w b = 0) : UI.div w a b = .panic := by
+  unfold UI.div UI.wrappingDiv UI.checkedDiv
+  rw [isZero_eq (w := w) b]; simp [hb0, Outcome.bind, Outcome.expect]
+
+theorem uRem_zero (hb0 : U w b = 0) : UI.rem w a b = .panic := by
+  unfold UI.rem UI.wrappingRem UI.checkedRem
+  rw [isZero_eq (w := w) b]; simp [hb0, Outcome.bind, Outcome.expect]
+
+/-- `Integer::div_floor` for `BUint` -/
+theorem U.divFloor_spec (hw : 1 ≤ w) (hn : 1 ≤ n) (ha : WF w n a) (hb : WF w n b) (hb0 : U w b ≠ 0) :
+    ∃ q, U.divFloor w a b = .ok q ∧ WF w n q ∧ U w q = U w a / U w b := uDiv_ok hw hn ha hb hb0
+
+/-- `Integer::mod_floor` for `BUint` -/
+theorem U.modFloor_spec (hw : 1 ≤ w) (hn : 1 ≤ n) (ha : WF w n a) (hb : WF w n b) (hb0 : U w b ≠ 0) :
+    ∃ r, U.modFloor w a b = .ok r ∧ WF w n r ∧ U w r = U w a % U w b := uRem_ok hw hn ha hb hb0
+
+/-- `Integer::div_rem` for `BUint` -/
+theorem U.divRem_spec (hw : 1 ≤ w) (hn : 1 ≤ n) (ha : WF w n a) (hb : WF w n b) (hb0 : U w b ≠ 0) :
+    ∃ q r, U.divRem w a b = .ok (q, r) ∧ WF w n q ∧ WF w n r ∧
+      U w q = U w a / U w b ∧ U w r = U w a % U w b := by
+  unfold U.divRem UI.divRem
+  rw [isZero_eq (w := w) b]
+  simp only [hb0, decide_false, Bool.false_eq_true, if_false]
+  exact uDivRemUnchecked_ok hw hn ha hb hb0
+
+theorem U.divModFloor_spec (hw : 1 ≤ w) (hn : 1 ≤ n) (ha : WF w n a) (hb : WF w n b)
+    (hb0 : U w b ≠ 0) :
+    ∃ q r, U.divModFloor w a b = .ok (q, r) ∧ WF w n q ∧ WF w n r ∧
+      U w q = U w a / U w b ∧ U w r = U w a % U w b := by
+  obtain ⟨q, h1, wq, sq⟩ := U.divFloor_spec hw hn ha hb hb0
+  obtain ⟨r, h2, wr, sr⟩ := U.modFloor_spec hw hn ha hb hb0
+  unfold U.divModFloor; rw [h1, h2]
+  exact ⟨q, r, rfl, wq, wr, sq, sr⟩
+
+theorem U.isMultipleOf_spec (hw : 1 ≤ w) (hn : 1 ≤ n) (ha : WF w n a) (hb : WF w n b)
+    (hb0 : U w b ≠ 0) : U.isMultipleOf w a b = .ok (decide (U w b ∣ U w a)) := by
+  obtain ⟨r, h2, wr, sr⟩ := U.modFloor_spec hw hn ha hb hb0
+  unfold U.isMultipleOf; rw [h2]
+  simp only [Outcome.map]
+  congr 1
+  rw [isZero_eq (w := w) r, sr]
+  exact decide_eq_decide.mpr (Nat.dvd_iff_mod_eq_zero ..).symm
+
+/-- a zero divisor panics in every division-like trait method -/
+theorem U.div_by_zero (hb0 : U w b = 0) :
+    U.divFloor w a b = .panic ∧ U.modFloor w a b = .panic ∧ U.divRem w a b = .panic ∧
+    U.divModFloor w a b = .panic ∧ U.isMultipleOf w a b = .panic := by
+  have h1 : U.divFloor w a b = .panic := uDiv_zero hb0
+  have h2 : U.modFloor w a b = .panic := uRem_zero hb0
+  refine ⟨h1, h2, ?_, ?_, ?_⟩
+  · unfold U.divRem UI.divRem; rw [isZero_eq (w := w) b]; simp [hb0]
+  · unfold U.divModFloor; rw [h1]; rfl
+  · unfold U.isMultipleOf; rw [h2]; rfl
+
+theorem U.isEven_spec (hw : 1 ≤ w) (hn : 1 ≤ n) (ha : WF w n a) :
+    U.isEven a = decide (U w a % 2 = 0) ∧ U.isOdd a = decide (U w a % 2 = 1) := by
+  obtain ⟨k, rfl⟩ := Nat.exists_eq_add_of_le' hn
+  match a, ha with
+  | d :: ds, ha =>
+    have hB := B_even hw
+    have e : U w (d :: ds) % 2 = d % 2 := by
+      rw [U_cons, hB, Nat.mul_assoc]; omega
+    unfold U.isEven U.isOdd
+    simp only [List.headD_cons, Nat.and_one_is_mod, e]
+    have h2 := Nat.mod_two_eq_zero_or_one d
+    constructor <;> rcases h2 with h | h <;> simp [h]
+
+/-- `Integer::lcm` for `BUint`, whenever the least common multiple is representable -/
+theorem U.lcm_spec (hw : 1 ≤ w) (hn : 1 ≤ n) (ha : WF w n a) (hb : WF w n b)
+    (hrep : Nat.lcm (U w a) (U w b) < M w n) (dbg : Bool) :
+    ∃ r, U.lcm dbg w a b = .ok r ∧ WF w n r ∧ U w r = Nat.lcm (U w a) (U w b) := by
+  unfold U.lcm
+  rw [isZero_eq (w := w) a, isZero_eq (w := w) b, ha.1]
+  by_cases ha0 : U w a = 0
+  · simp only [ha0, decide_true, Bool.true_or, if_true]
+    exact ⟨_, rfl, WF_zero w n, by rw [U_zero, Nat.lcm_zero_left]⟩
+  by_cases hb0 : U w b = 0
+  · simp only [hb0, decide_true, Bool.or_true, if_true]
+    exact ⟨_, rfl, WF_zero w n, by rw [U_zero, Nat.lcm_zero_right]⟩
+  simp only [ha0, hb0, decide_false, Bool.or_self, Bool.false_eq_true, if_false]
+  obtain ⟨g, hg1, hg2, hg3⟩ := U.gcd_spec hw ha hb dbg
+  rw [hg1]; dsimp only [Outcome.bind]
+  have hgpos : 0 < Nat.gcd (U w a) (U w b) := Nat.gcd_pos_of_pos_left _ (by omega)
+  obtain ⟨q, hq1, hq2, hq3⟩ := U.divFloor_spec hw hn ha hg2 (by omega)
+  rw [hq1]; dsimp only
+  have hval : U w q * U w b = Nat.lcm (U w a) (U w b) := by
+    rw [hq3, hg3]; unfold Nat.lcm
+    obtain ⟨c, hc⟩ := Nat.gcd_dvd_left (U w a) (U w b)
+    generalize Nat.gcd (U w a) (U w b) = G at *
+    rw [hc, Nat.mul_div_cancel_left _ hgpos, Nat.mul_assoc, Nat.mul_div_cancel_left _ hgpos]
+  obtain ⟨r, hr1, hr2, hr3⟩ := uMul_ok hq2 hb (by rw [hval]; exact hrep) dbg
+  exact ⟨r, hr1, hr2, by rw [hr3, hval]⟩
+
+end udiv
+
+/-! ## §3c signed gcd / lcm / parity -/
+
+section sgcd
+variable {w n : Nat} {a b : List Nat}
+
+/-- inherent `BInt::abs` away from `MIN` -/
+theorem abs_ok (hw : 2 ≤ w) (hn : 1 ≤ n) (ha : WF w n a)
+    (hrep : repS (M w n) ((S w a).natAbs : Int)) (dbg : Bool) :
+    ∃ r, Inh.abs dbg w a = .ok r ∧ WF w n r ∧ S w r = ((S w a).natAbs : Int) := by
+  have h := II.overflowingAbs_spec hw hn ha
+  obtain ⟨c1, c2⟩ := h.checked
+  unfold Inh.abs II.strictAbs II.checkedAbs
+  cases hc : tupleToOption (II.overflowingAbs w a) with
+  | none => exact absurd hrep (c1.mp hc)
+  | some r =>
+    obtain ⟨g1, g2⟩ := c2 r hc
+    cases dbg
+    · exact ⟨r, rfl, g1, g2⟩
+    · exact ⟨r, rfl, g1, g2⟩
+
+/-- a pattern whose unsigned value is below `2^(BITS-1)` reads the same signed -/
+theorem S_of_small (hx : WF w n a) (h : 2 * U w a < M w n) : S w a = (U w a : Int) := by
+  rw [S_eq hx, toInt_of_lt h]
+
+/-- `Integer::gcd` for `BInt`: the non-negative gcd of the magnitudes, whenever representable
+    (it is not only for `gcd(MIN, MIN)` and `gcd(MIN, 0)`) -/
+theorem I.gcd_spec (hw : 2 ≤ w) (hn : 1 ≤ n) (ha : WF w n a) (hb : WF w n b)
+    (hrep : 2 * Nat.gcd (S w a).natAbs (S w b).natAbs < M w n) (dbg : Bool) :
+    ∃ r, I.gcd dbg w a b = .ok r ∧ WF w n r ∧
+      S w r = (Nat.gcd (S w a).natAbs (S w b).natAbs : Int) := by
+  obtain ⟨ua1, ua2⟩ := II.unsignedAbs_spec hw hn ha
+  obtain ⟨ub1, ub2⟩ := II.unsignedAbs_spec hw hn hb
+  obtain ⟨g, hg1, hg2, hg3⟩ := U.gcd_spec (by omega) ua1 ub1 dbg
+  rw [ua2, ub2] at hg3
+  unfold I.gcd
+  rw [hg1]; dsimp only [Outcome.bind]
+  have hs : S w g = (U w g : Int) := S_of_small hg2 (by rw [hg3]; exact hrep)
+  obtain ⟨r, hr1, hr2, hr3⟩ := abs_ok hw hn hg2 (by rw [hs]; unfold repS; simp; omega) dbg
+  refine ⟨r, hr1, hr2, ?_⟩
+  rw [hr3, hs, hg3]; simp
+
+theorem I.isEven_spec (hw : 2 ≤ w) (hn : 1 ≤ n) (ha : WF w n a) :
+    I.isEven a = decide (S w a % 2 = 0) ∧ I.isOdd a = decide (S w a % 2 = 1) := by
+  obtain ⟨h1, h2⟩ := U.isEven_spec (by omega) hn ha
+  unfold I.isEven I.isOdd
+  rw [h1, h2]
+  have hm := M_even (show 1 ≤ w by omega) hn
+  have hM4 := M_ge_four hw hn
+  have hm2 : M w n % 2 = 0 := by omega
+  have hm4 : (M w n / 2) % 2 = 0 ∨ True := Or.inr trivial
+  have e : S w a % 2 = ((U w a % 2 : Nat) : Int) := by
+    rw [S_eq ha]; unfold toInt; split <;> omega
+  rw [e]
+  constructor <;> apply decide_eq_decide.mpr <;> omega
+
+/-- the unsuffixed `BInt` multiplication when the exact product is representable -/
+theorem iMul_ok (hw : 2 ≤ w) (hn : 1 ≤ n) (ha : WF w n a) (hb : WF w n b)
+    (hrep : repS (M w n) (S w a * S w b)) (dbg : Bool) :
+    ∃ r, II.mul w dbg a b = .ok r ∧ WF w n r ∧ S w r = S w a * S w b := by
+  obtain ⟨h1, h2⟩ := II.mul_spec hw hn ha hb dbg
+  cases hm : II.mul w dbg a b with
+  | panic => exact absurd hrep (h1.mp hm).2
+  | ok r =>
+    obtain ⟨g1, g2, -⟩ := h2 r hm
+    exact ⟨r, rfl, g1, by rw [g2, wrapS_of_rep (M_pos w n) hrep]⟩
+
+theorem lcm_eq_div_mul (x y : Nat) : x / Nat.gcd x y * y = Nat.lcm x y := by
+  unfold Nat.lcm
+  rcases Nat.eq_zero_or_pos (Nat.gcd x y) with h0 | hpos
+  · have hx : x = 0 := Nat.eq_zero_of_gcd_eq_zero_left h0
+    subst hx; simp
+  · obtain ⟨c, hc⟩ := Nat.gcd_dvd_left x y
+    generalize Nat.gcd x y = G at *
+    rw [hc, Nat.mul_div_cancel_left _ hpos, Nat.mul_assoc, Nat.mul_div_cancel_left _ hpos]
+
+/-- `Integer::lcm` for `BInt`: the non-negative least common multiple, whenever representable -/
+theorem I.lcm_spec (hw : 2 ≤ w) (hn : 1 ≤ n) (ha : WF w n a) (hb : WF w n b)
+    (hrep : 2 * Nat.lcm (S w a).natAbs (S w b).natAbs < M w n) (dbg : Bool) :
+    ∃ r, I.lcm dbg w a b = .ok r ∧ WF w n r ∧
+      S w r = (Nat.lcm (S w a).natAbs (S w b).natAbs : Int) := by
+  have hw1 : 1 ≤ w := by omega
+  unfold I.lcm
+  rw [bool_eq_decide (II.isZero_iff_S ha), bool_eq_decide (II.isZero_iff_S hb), ha.1]
+  by_cases ha0 : S w a = 0
+  · simp only [ha0, decide_true, Bool.true_or, if_true]
+    exact ⟨_, rfl, WF_zero w n, by rw [S_zero]; simp⟩
+  by_cases hb0 : S w b = 0
+  · simp only [hb0, decide_true, Bool.or_true, if_true]
+    exact ⟨_, rfl, WF_zero w n, by rw [S_zero]; simp⟩
+  simp only [ha0, hb0, decide_false, Bool.or_self, Bool.false_eq_true, if_false]
+  -- the gcd
+  have hapos : 0 < (S w a).natAbs := by omega
+  have hbpos : 0 < (S w b).natAbs := by omega
+  have hgpos : 0 < Nat.gcd (S w a).natAbs (S w b).natAbs := Nat.gcd_pos_of_pos_left _ hapos
+  have hgle : Nat.gcd (S w a).natAbs (S w b).natAbs ≤ Nat.lcm (S w a).natAbs (S w b).natAbs :=
+    Nat.le_trans (Nat.le_of_dvd hapos (Nat.gcd_dvd_left _ _))
+      (Nat.le_of_dvd (Nat.lcm_pos hapos hbpos) (Nat.dvd_lcm_left _ _))
+  obtain ⟨g, hg1, hg2, hg3⟩ := I.gcd_spec hw hn ha hb (by omega) dbg
+  rw [hg1]; dsimp only [Outcome.bind]
+  generalize hG : Nat.gcd (S w a).natAbs (S w b).natAbs = G at *
+  -- the exact quotient
+  have hme := M_even hw1 hn
+  obtain ⟨q, hq1, hq2, hq3⟩ := I.divFloor_spec hw hn ha hg2 (by rw [hg3]; omega)
+    (by rw [hg3]; omega) dbg
+  rw [hq1]; dsimp only
+  have hdvd : (G : Int) ∣ S w a := by
+    rw [Int.natCast_dvd, ← hG]; exact Nat.gcd_dvd_left _ _
+  have hqabs : (S w q).natAbs = (S w a).natAbs / G := by
+    rw [hq3, hg3, Int.fdiv_eq_ediv_of_nonneg _ (by omega), Int.natAbs_ediv_of_dvd hdvd]; simp
+  have hprod : (S w q * S w b).natAbs = Nat.lcm (S w a).natAbs (S w b).natAbs := by
+    rw [Int.natAbs_mul, hqabs, ← hG]; exact lcm_eq_div_mul _ _
+  obtain ⟨p, hp1, hp2, hp3⟩ := iMul_ok hw hn hq2 hb (by unfold repS; omega) dbg
+  rw [hp1]; dsimp only
+  obtain ⟨r, hr1, hr2, hr3⟩ := abs_ok hw hn hp2 (by rw [hp3, hprod]; unfold repS; omega) dbg
+  exact ⟨r, hr1, hr2, by rw [hr3, hp3, hprod]⟩
+
+end sgcd
+
+/-! ## §5 integer roots -/
+
+/-- `r` is the integer `k`-th root of `x` -/
+def IsRoot (k x r : Nat) : Prop := r ^ k ≤ x ∧ x < (r + 1) ^ k
+
+instance (k x r : Nat) : Decidable (IsRoot k x r) := by unfold IsRoot; exact inferInstance
+
+theorem IsRoot.unique {k x r r' : Nat} (h : IsRoot k x r) (h' : IsRoot k x r') :
+    r = r' := by
+  rcases Nat.lt_trichotomy r r' with hlt | heq | hgt
+  · have := Nat.pow_le_pow_left (show r + 1 ≤ r' by omega) k
+    have := h.2; have := h'.1; omega
+  · exact heq
+  · have := Nat.pow_le_pow_left (show r' + 1 ≤ r by omega) k
+    have := h'.2; have := h.1; omega
+
+theorem IsRoot.one (x : Nat) : IsRoot 1 x x := ⟨by simp, by simp⟩
+
+/-! ### the trusted primitive root (`Prim.uRoot`) does what its name says -/
+
+theorem powLeLoop_eq (b x : Nat) (hb : 0 < b) : ∀ (e acc : Nat),
+    Prim.powLeLoop b x e acc = decide (acc * b ^ e ≤ x)
+  | 0, acc => by simp [Prim.powLeLoop]
+  | e + 1, acc => by
+    unfold Prim.powLeLoop
+    by_cases h : acc > x
+    · rw [if_pos h]
+      have h1 : 1 ≤ b ^ (e + 1) := Nat.pow_pos hb
+      have : acc * 1 ≤ acc * b ^ (e + 1) := Nat.mul_le_mul_left _ h1
+      symm; simp only [decide_eq_false_iff_not]; omega
+    · rw [if_neg h, powLeLoop_eq b x hb e (acc * b)]
+      congr 1; rw [Nat.pow_succ]; ring_nf
+
+theorem powLe_eq (b e x : Nat) : Prim.powLe b e x = decide (b ^ e ≤ x) := by
+  unfold Prim.powLe
+  by_cases h0 : b = 0
+  · subst h0
+    rcases Nat.eq_zero_or_pos e with rfl | he
+    · simp
+    · have : (0 : Nat) ^ e = 0 := Nat.zero_pow he
+      simp [this]; omega
+  by_cases h1 : b = 1
+  · subst h1; simp
+  rw [if_neg h0, if_neg h1, powLeLoop_eq b x (by omega) e 1]; simp
+
+theorem rootLoop_spec (k x : Nat) : ∀ (i r : Nat), r ^ k ≤ x → x < (r + 2 ^ i) ^ k →
+    IsRoot k x (Prim.rootLoop k x i r)
+  | 0, r, h1, h2 => by unfold Prim.rootLoop; exact ⟨h1, by simpa using h2⟩
+  | i + 1, r, h1, h2 => by
+    unfold Prim.rootLoop
+    dsimp only
+    rw [powLe_eq]
+    by_cases h : (r + 2 ^ i) ^ k ≤ x
+    · simp only [h, decide_true, if_true]
+      exact rootLoop_spec k x i _ h (by rw [Nat.add_assoc, ← Nat.two_mul, ← Nat.pow_succ']; exact h2)
+    · simp only [h, decide_false, Bool.false_eq_true, if_false]
+      exact rootLoop_spec k x i r h1 (by omega)
+
+/-- `Prim.uRoot` (the stand-in for num-integer's `u128` roots) is the exact integer root -/
+theorem uRoot_spec {k x : Nat} (hk : 1 ≤ k) (hx : x < 2 ^ 128) : IsRoot k x (Prim.uRoot k x) := by
+  unfold Prim.uRoot
+  apply rootLoop_spec
+  · rw [Nat.zero_pow (by omega)]; omega
+  · rw [Nat.zero_add]
+    calc x < 2 ^ 128 := hx
+      _ = (2 ^ 128) ^ 1 := by simp
+      _ ≤ (2 ^ 128) ^ k := Nat.pow_le_pow_right (by positivity) hk
+
+theorem IsRoot.le {k x r : Nat} (hk : 1 ≤ k) (h : IsRoot k x r) : r ≤ x := by
+  rcases Nat.eq_zero_or_pos r with rfl | hr
+  · omega
+  · calc r = r ^ 1 := by simp
+      _ ≤ r ^ k := Nat.pow_le_pow_right hr hk
+      _ ≤ x := h.1
+
+
+
+section shortcut
+variable {s n : Nat} {x : List Nat}
+
+/-- `to_u128`: `Some(value)` exactly below `2^128` (digit widths `2^s`) -/
+theorem toU128_spec (hn : 1 ≤ n) (hx : WF (2 ^ s) n x) :
+    toU128 (2 ^ s) x = .ok (if U (2 ^ s) x < 2 ^ 128 then some (U (2 ^ s) x) else none) := by
+  have hw : 1 ≤ 2 ^ s := Nat.two_pow_pos s
+  have hdiv : (128 : Nat) < 2 ^ s ∨ ∃ c, 128 = c * 2 ^ s := by
+    by_cases h : s ≤ 7
+    · right; refine ⟨2 ^ (7 - s), ?_⟩
+      rw [← Nat.pow_add, show 7 - s + s = 7 by omega]
+    · left
+      calc 128 = 2 ^ 7 := by norm_num
+        _ < 2 ^ s := Nat.pow_lt_pow_right (by decide) (by omega)
+  have h := UI.tryToPrim_spec (w := 2 ^ s) ⟨128, false⟩ hw hn (by decide) hdiv hx
+  unfold toU128
+  rcases h with ⟨h1, q, h2, -, h4⟩ | ⟨h1, h2⟩
+  · have hlt : U (2 ^ s) x < 2 ^ 128 := by
+      have := h1.2; simp only [B] at this; exact_mod_cast this
+    have hq : q = U (2 ^ s) x := by
+      have : (q : Int) = (U (2 ^ s) x : Int) := by simpa [PInt.val] using h4
+      exact_mod_cast this
+    rw [h2, if_pos hlt, hq]
+  · have hlt : ¬ U (2 ^ s) x < 2 ^ 128 := by
+      intro hlt; apply h1
+      exact ⟨by positivity, by simp only [B]; exact_mod_cast hlt⟩
+    rw [h2, if_neg hlt]
+
+variable {w : Nat}
+
+theorem fromU128_ok {v : Nat} (hw : 1 ≤ w) (hv : v < 2 ^ 128) (hvM : v < M w n) :
+    ∃ r, fromU128 w n v = .ok r ∧ WF w n r ∧ U w r = v := by
+  obtain ⟨r, h1, h2, h3⟩ := UI.fromUint_spec (w := w) (n := n) (k := 128) hw (by simpa [B] using hv) hvM
+  exact ⟨r, h1, h2, by simpa [valOf] using h3⟩
+
+theorem fromU32_ok {v : Nat} (hw : 1 ≤ w) (hv : v < 2 ^ 32) (hvM : v < M w n) :
+    ∃ r, fromU32 w n v = .ok r ∧ WF w n r ∧ U w r = v := by
+  obtain ⟨r, h1, h2, h3⟩ := UI.fromUint_spec (w := w) (n := n) (k := 32) hw (by simpa [B] using hv) hvM
+  exact ⟨r, h1, h2, by simpa [valOf] using h3⟩
+
+/-- `check_zero_or_one!` fires only on the values 0 and 1 -/
+theorem isZeroOrOne_le (hx : WF w n x) (h : U.isZeroOrOne x = true) : U w x ≤ 1 := by
+  unfold U.isZeroOrOne at h
+  simp only [Bool.and_eq_true, beq_iff_eq, Bool.or_eq_true] at h
+  obtain ⟨h1, h2⟩ := h
+  rw [(ldi_zero hx h1).1]; omega
+
+end shortcut
+
+/-! ### `fixpoint` as used by the three root functions -/
+section fix
+variable {w n : Nat}
+
+/-- what the closure passed to `fixpoint` has to do on every iterate `s` between the root and the
+    first guess `G`: return the Newton step without panicking -/
+def StepOk (w n k X G : Nat) (f : List Nat → Outcome (List Nat)) : Prop :=
+  ∀ s, WF w n s → X < (U w s + 1) ^ (k + 1) → U w s ≤ G →
+    ∃ r, f s = .ok r ∧ WF w n r ∧ U w r = newton k X (U w s)
+
+theorem fixDown_spec {k X G : Nat} {f : List Nat → Outcome (List Nat)} (hX : 1 ≤ X)
+    (hf : StepOk w n k X G f) :
+    ∀ (fuel : Nat) (self xn : List Nat), WF w n self → WF w n xn → U w self < fuel →
+      U w self ≤ G → X < (U w self + 1) ^ (k + 1) → U w xn = newton k X (U w self) →
+      ∃ r, U.fixDown f fuel self xn = .ok r ∧ WF w n r ∧ IsRoot (k + 1) X (U w r)
+  | 0, _, _, _, _, h, _, _, _ => by omega
+  | fuel + 1, self, xn, hs, hxn, hfuel, hG, hinv, hval => by
+    unfold U.fixDown
+    rw [opGt_eq hs hxn]
+    have hspos : 0 < U w self := by
+      rcases Nat.eq_zero_or_pos (U w self) with h0 | h0
+      · rw [h0] at hinv; simp at hinv; omega
+      · exact h0
+    by_cases hgt : U w xn < U w self
+    · simp only [hgt, decide_true, if_true]
+      have hinv' : X < (U w xn + 1) ^ (k + 1) := by rw [hval]; exact newton_ge k X _ hspos
+      obtain ⟨r, hr1, hr2, hr3⟩ := hf xn hxn hinv' (by omega)
+      rw [hr1]; dsimp only [Outcome.bind]
+      exact fixDown_spec hX hf fuel xn r hxn hr2 (by omega) (by omega) hinv' hr3
+    · simp only [hgt, decide_false, Bool.false_eq_true, if_false]
+      refine ⟨self, rfl, hs, ?_, hinv⟩
+      by_contra hc
+      have := newton_lt k X (U w self) hspos (by omega)
+      omega
+
+/-- `fixpoint` started from a guess above the root -/
+theorem fixpoint_spec {k X G : Nat} {f : List Nat → Outcome (List Nat)} {guess : List Nat}
+    (hX : 1 ≤ X) (hf : StepOk w n k X G f) (hg : WF w n guess) (hG : U w guess = G)
+    (hgt : X < G ^ (k + 1)) (maxBits : Nat) :
+    ∃ r, U.fixpoint w guess maxBits f = .ok r ∧ WF w n r ∧ IsRoot (k + 1) X (U w r) := by
+  have hGpos : 0 < G := by
+    rcases Nat.eq_zero_or_pos G with h0 | h0
+    · rw [h0] at hgt; simp at hgt
+    · exact h0
+  have hinv : X < (U w guess + 1) ^ (k + 1) := by
+    rw [hG]; exact Nat.lt_of_lt_of_le hgt (Nat.pow_le_pow_left (by omega) _)
+  obtain ⟨xn, h1, h2, h3⟩ := hf guess hg hinv (by omega)
+  have hlt : U w xn < U w guess := by rw [h3, hG]; exact newton_lt k X G hGpos hgt
+  unfold U.fixpoint
+  rw [h1]; dsimp only [Outcome.bind]
+  have hM := U_lt hg
+  rw [hg.1]
+  obtain ⟨m, hm⟩ : ∃ m, M w n = m + 1 := ⟨M w n - 1, by omega⟩
+  have hup : U.fixUp w maxBits f (M w n) guess xn = .ok (guess, xn) := by
+    rw [hm]; unfold U.fixUp
+    rw [opLt_eq hg h2]
+    simp only [show ¬ U w guess < U w xn by omega, decide_false, Bool.false_eq_true, if_false]
+  rw [hup]; dsimp only
+  exact fixDown_spec hX hf (M w n) guess xn hg h2 hM (by omega) hinv h3
+
+end fix
+
+
+section rootops
+variable {w n : Nat} {a : List Nat}
+
+theorem uShr_ok (hw : 1 ≤ w) (ha : WF w n a) {k : Nat} (hk : k < w * n) (dbg : Bool) :
+    ∃ r, UI.shr dbg w a k = .ok r ∧ WF w n r ∧ U w r = U w a / 2 ^ k := by
+  obtain ⟨g1, g2⟩ := UI.uncheckedShrInternal_spec (by omega) ha hk
+  exact ⟨_, UI.shr_of_lt dbg (by rw [ha.1]; exact hk), g1, g2⟩
+
+theorem uShl_ok (hw : 1 ≤ w) (ha : WF w n a) {k : Nat} (hk : k < w * n)
+    (hfit : U w a * 2 ^ k < M w n) (dbg : Bool) :
+    ∃ r, UI.shl dbg w a k = .ok r ∧ WF w n r ∧ U w r = U w a * 2 ^ k := by
+  obtain ⟨g1, g2⟩ := UI.uncheckedShlInternal_spec (by omega) ha hk
+  exact ⟨_, UI.shl_of_lt dbg (by rw [ha.1]; exact hk), g1, by rw [g2, Nat.mod_eq_of_lt hfit]⟩
+
+theorem two_pow_lt_M {e : Nat} (h : e < w * n) : 2 ^ e < M w n :=
+  Nat.pow_lt_pow_right (by decide) h
+
+/-- a value that did not fit `u128` forces a width above 128 bits -/
+theorem bits_gt_128 (ha : WF w n a) (h : 2 ^ 128 ≤ U w a) : 128 < w * n := by
+  by_contra hc
+  have : M w n ≤ 2 ^ 128 := Nat.pow_le_pow_right (by decide) (by omega)
+  have := U_lt ha; omega
+
+theorem bitLen_facts (ha : WF w n a) (h : 2 ^ 128 ≤ U w a) :
+    UI.bits w a = Spec.bitLen (U w a) ∧ 129 ≤ UI.bits w a ∧ UI.bits w a ≤ w * n ∧
+    U w a < 2 ^ UI.bits w a ∧ 2 ^ (UI.bits w a - 1) ≤ U w a := by
+  rw [bits_spec ha]
+  have h1 := lt_two_pow_bitLen (U w a)
+  have h2 := bitLen_le_of_lt (U_lt ha)
+  have h0 : U w a ≠ 0 := by have := Nat.two_pow_pos 128; omega
+  have h3 := two_pow_le_of_bitLen h0
+  refine ⟨rfl, ?_, h2, h1, h3⟩
+  by_contra hc
+  have : 2 ^ Spec.bitLen (U w a) ≤ 2 ^ 128 := Nat.pow_le_pow_right (by decide) (by omega)
+  omega
+
+/-- the first guess `2^(bits/(k+1) + 1)` lies above the `(k+1)`-th root -/
+theorem guess_gt {X bits k : Nat} (hX : X < 2 ^ bits) : X < (2 ^ (bits / (k + 1) + 1)) ^ (k + 1) := by
+  rw [← Nat.pow_mul]
+  refine Nat.lt_of_lt_of_le hX (Nat.pow_le_pow_right (by decide) ?_)
+  have h := Nat.lt_mul_div_succ bits (Nat.succ_pos k)
+  have e : k.succ = k + 1 := rfl
+  rw [e] at h
+  rw [Nat.mul_comm]; omega
+
+end rootops
+
+/-! ### `sqrt` -/
+section sqrt
+variable {w n : Nat} {x : List Nat}
+
+theorem sqrtStep_ok (hw : 1 ≤ w) (hn : 1 ≤ n) (hx : WF w n x) (hX : 1 ≤ U w x) {G : Nat}
+    (hbound : 2 * G + 2 < M w n) (h1 : 1 < w * n) (dbg : Bool) :
+    StepOk w n 1 (U w x) G (U.sqrtStep dbg w x) := by
+  intro s hs hinv hG
+  have hspos : 0 < U w s := by
+    rcases Nat.eq_zero_or_pos (U w s) with h0 | h0
+    · rw [h0] at hinv; simp at hinv; omega
+    · exact h0
+  unfold U.sqrtStep
+  obtain ⟨q, hq1, hq2, hq3⟩ := uDiv_ok hw hn hx hs (by omega)
+  rw [hq1]; dsimp only [Outcome.bind]
+  have hqle : U w q ≤ U w s + 2 := by
+    rw [hq3]
+    have : U w x / U w s < U w s + 3 := by
+      rw [Nat.div_lt_iff_lt_mul hspos]
+      have e : (U w s + 1) ^ (1 + 1) = U w s * U w s + 2 * U w s + 1 := by ring
+      rw [e] at hinv; nlinarith
+    omega
+  obtain ⟨t, ht1, ht2, ht3⟩ := uAdd_ok hs hq2 (by omega) dbg
+  rw [ht1]; dsimp only
+  obtain ⟨r, hr1, hr2, hr3⟩ := uShr_ok hw ht2 h1 dbg
+  refine ⟨r, hr1, hr2, ?_⟩
+  rw [hr3, ht3, hq3]; unfold newton; simp
+
+/-- the Newton part of `sqrt` (values that do not fit `u128`) -/
+theorem sqrtNewton_spec {s : Nat} (hs : s < 32) (hn : 1 ≤ n) (hx : WF (2 ^ s) n x)
+    (hbig : 2 ^ 128 ≤ U (2 ^ s) x) (dbg : Bool) :
+    ∃ r, U.sqrtNewton dbg (2 ^ s) x = .ok r ∧ WF (2 ^ s) n r ∧ IsRoot 2 (U (2 ^ s) x) (U (2 ^ s) r) := by
+  have hw : 1 ≤ 2 ^ s := Nat.two_pow_pos s
+  obtain ⟨b1, b2, b3, b4, b5⟩ := bitLen_facts hx hbig
+  have hW := bits_gt_128 hx hbig
+  unfold U.sqrtNewton
+  rw [hx.1]; dsimp only
+  generalize UI.bits (2 ^ s) x = bits at *
+  obtain ⟨g, hg1, hg2, hg3⟩ := (powerOfTwo_spec hs n (bits / 2 + 1)).2 (by omega)
+  rw [hg1]; dsimp only [Outcome.bind]
+  have hXpos : 1 ≤ U (2 ^ s) x := by have := Nat.two_pow_pos 128; omega
+  have hbound : 2 * 2 ^ (bits / 2 + 1) + 2 < M (2 ^ s) n := by
+    have h4 : 2 ^ (bits / 2 + 1 + 2) < M (2 ^ s) n := two_pow_lt_M (by omega)
+    have hp : 1 ≤ 2 ^ (bits / 2 + 1) := Nat.two_pow_pos _
+    rw [Nat.pow_add] at h4; omega
+  exact fixpoint_spec hXpos (sqrtStep_ok hw hn hx hXpos hbound (by omega) dbg) hg2 hg3
+    (guess_gt (k := 1) b4) _
+
+/-- the `check_zero_or_one!` / `to_u128` prologue shared by `sqrt`, `cbrt` and `nth_root` -/
+theorem shortcut_spec {s k : Nat} (hk : 1 ≤ k) (hn : 1 ≤ n) (hx : WF (2 ^ s) n x)
+    (newt : Outcome (List Nat))
+    (hnewt : 2 ^ 128 ≤ U (2 ^ s) x →
+      ∃ r, newt = .ok r ∧ WF (2 ^ s) n r ∧ IsRoot k (U (2 ^ s) x) (U (2 ^ s) r)) :
+    ∃ r, (if U.isZeroOrOne x then Outcome.ok x
+          else (toU128 (2 ^ s) x).bind fun
+            | some v => fromU128 (2 ^ s) x.length (Prim.uRoot k v)
+            | none => newt) = .ok r ∧
+      WF (2 ^ s) n r ∧ IsRoot k (U (2 ^ s) x) (U (2 ^ s) r) := by
+  have hw : 1 ≤ 2 ^ s := Nat.two_pow_pos s
+  by_cases hz : U.isZeroOrOne x = true
+  · rw [if_pos hz]
+    have hle := isZeroOrOne_le hx hz
+    refine ⟨x, rfl, hx, ?_⟩
+    rcases Nat.le_one_iff_eq_zero_or_eq_one.mp hle with h0 | h1
+    · rw [h0]; exact ⟨by rw [Nat.zero_pow (by omega)], by simp⟩
+    · rw [h1]; exact ⟨by simp, by
+        calc 1 < 2 ^ 1 := by decide
+          _ ≤ 2 ^ k := Nat.pow_le_pow_right (by decide) hk⟩
+  · rw [if_neg hz, toU128_spec hn hx]
+    dsimp only [Outcome.bind]
+    by_cases hlt : U (2 ^ s) x < 2 ^ 128
+    · simp only [hlt, if_true]
+      have hr := uRoot_spec hk hlt
+      have hle := hr.le hk
+      obtain ⟨r, h1, h2, h3⟩ := fromU128_ok (w := 2 ^ s) (n := n) hw
+        (Nat.lt_of_le_of_lt hle hlt) (Nat.lt_of_le_of_lt hle (U_lt hx))
+      rw [hx.1]
+      exact ⟨r, h1, h2, by rw [h3]; exact hr⟩
+    · simp only [hlt, if_false]
+      exact hnewt (by omega)
+
+/-- `Roots::sqrt` for `BUint`: `r² ≤ x < (r+1)²`, never panics -/
+theorem U.sqrt_spec {s : Nat} (hs : s < 32) (hn : 1 ≤ n) (hx : WF (2 ^ s) n x) (dbg : Bool) :
+    ∃ r, U.sqrt dbg (2 ^ s) x = .ok r ∧ WF (2 ^ s) n r ∧ IsRoot 2 (U (2 ^ s) x) (U (2 ^ s) r) := by
+  unfold U.sqrt
+  exact shortcut_spec (by decide) hn hx _ (fun hbig => sqrtNewton_spec hs hn hx hbig dbg)
+
+end sqrt
+
 end NumT
 end Bnum
